@@ -1,16 +1,16 @@
 """C11: see DESIGN.md section 4 C11."""
-from _ccmon import standard_plan, layout_steps, floor_msgs, COMMON_ASSUMPTIONS, EVOLVE_NOTE
+from _ccmon import standard_plan, layout_steps, floor_msgs, COMMON_ASSUMPTIONS, EVOLVE_NOTE, FAULT_NOTE
 
 LEVEL = "exploration"
 RULE = 'histories are generated per shard from (seed, index) by harness/src/gen.rs (weights of mode C11: mark_alive / clone / weak traffic / try_unwrap raised so that objects enter and leave the buffer in every way; few finalizer scripts) plus the directed corpus harness/src/directed.rs; each is executed against the real crate with all oracles on, followed by an epilogue that releases everything and collects until quiet. distinct = distinct expanded operation lists (FNV hash); non-trivial iff the buffer reached length >= 3 and at least three different leave-operations (clone, mark_alive, downgrade, upgrade, unwrap, collection) were observed in the history'
-RULE += EVOLVE_NOTE
+RULE += EVOLVE_NOTE + FAULT_NOTE
 ASSUMPTIONS = COMMON_ASSUMPTIONS
 FLOORS = {'buffer_exact_membership_checks': 100000, 'allocated_bytes_checks': 100000, 'executions_count_checks': 100000}
 
 
 def plan(ctx):
     # the layout grid contributes the buffering rules on managed values without drop glue (plain bytes, zero-sized)
-    return standard_plan(ctx, "C11", mode="C11") + layout_steps(ctx, "C11", ctx.quick)
+    return standard_plan(ctx, "C11", mode="C11", after_faults=True) + layout_steps(ctx, "C11", ctx.quick)
 
 
 def floors(ctx, evaluations, distinct, counters, sets):
